@@ -475,3 +475,103 @@ func (c *Ctx) ruleWorkDone(rule string) {
 		c.R.Unresolved(rule, "construction of a success result from a work-done message")
 	}
 }
+
+// R-CODEC (C05 "each Execute returns what calling the step in-process would produce", C01 "after a CBOR encode/decode
+// exactly as ATP transports it"): the transport must not be narrower than the schemas. The CBOR decoder's defaults -
+// 32 nesting levels, 131072 array elements / map pairs, valid UTF-8 only - refuse values every schema accepts and the
+// encoder writes, and a refused message ends the whole session; the encoder's default sends a nil slice or map as
+// null, which no list or map schema accepts. Obligations, over package atp:
+//   - no package-level cbor.Unmarshal / NewDecoder / Marshal / NewEncoder (they are the default modes);
+//   - every DecOptions value a DecMode is built from sets MaxNestedLevels, MaxArrayElements, MaxMapPairs and UTF8;
+//   - every EncOptions value an EncMode is built from sets NilContainers.
+func (c *Ctx) ruleCodec(rule string) {
+	n := 0
+	for _, fn := range c.M.SortedFuncs(c.scopePkg("atp")) {
+		cnt := map[string]int{}
+		for _, b := range fn.Blocks {
+			for _, in := range b.Instrs {
+				call, ok := in.(*ssa.Call)
+				if !ok {
+					continue
+				}
+				name := core.StaticCalleeName(&call.Call)
+				short := name[strings.LastIndex(name, "/")+1:]
+				switch {
+				case strings.HasSuffix(name, "cbor/v2.Unmarshal"), strings.HasSuffix(name, "cbor/v2.NewDecoder"), strings.HasSuffix(name, "cbor/v2.Marshal"), strings.HasSuffix(name, "cbor/v2.NewEncoder"):
+					n++
+					cnt[short]++
+					k := key(rule, c.M.Key(fn), sprintf("%s #%d", short, cnt[short]))
+					c.R.Bad(rule, k, c.M.InstrPos(call), "the transport uses a default CBOR mode",
+						"the package-level functions decode with 32 nesting levels, 131072 elements and valid UTF-8 only, and encode nil slices / maps as null: a value the step's schema accepts is refused (or changed) on the way, and a refused message is fatal for the whole session")
+				case strings.HasSuffix(name, "cbor/v2.DecOptions).DecMode"), strings.HasSuffix(name, "cbor/v2.EncOptions).EncMode"):
+					n++
+					cnt[short]++
+					k := key(rule, c.M.Key(fn), sprintf("%s #%d is built from options as wide as the schemas", short, cnt[short]))
+					set := map[string]bool{}
+					codecFieldsSet(call.Call.Args[0], set, 0)
+					want := []string{"MaxNestedLevels", "MaxArrayElements", "MaxMapPairs", "UTF8"}
+					if strings.Contains(name, "EncOptions") {
+						want = []string{"NilContainers"}
+					}
+					var missing []string
+					for _, w := range want {
+						if !set[w] {
+							missing = append(missing, w)
+						}
+					}
+					if len(missing) == 0 {
+						c.R.Ok(rule, k, c.M.InstrPos(call), "CBOR mode of the transport", "the options set "+strings.Join(want, ", ")+" to non-default constants")
+					} else {
+						c.R.Bad(rule, k, c.M.InstrPos(call), "a CBOR mode of the transport keeps the library default for "+strings.Join(missing, ", "),
+							"values the schemas accept (deep nesting, more than 131072 elements, strings that are not valid UTF-8, nil slices and maps) are refused or changed on the way; a refused message ends the session for every running step")
+					}
+				}
+			}
+		}
+	}
+	if n == 0 {
+		c.R.Unresolved(rule, "CBOR mode construction in package atp")
+	}
+}
+
+// codecFieldsSet collects the fields of an options struct value that are set to a non-zero constant.
+func codecFieldsSet(v ssa.Value, set map[string]bool, depth int) {
+	if depth > 5 || v == nil {
+		return
+	}
+	switch x := v.(type) {
+	case *ssa.UnOp:
+		al, ok := x.X.(*ssa.Alloc)
+		if !ok {
+			return
+		}
+		if refs := al.Referrers(); refs != nil {
+			for _, r := range *refs {
+				switch y := r.(type) {
+				case *ssa.Store:
+					if y.Addr == ssa.Value(al) {
+						codecFieldsSet(y.Val, set, depth+1)
+					}
+				case *ssa.FieldAddr:
+					if frefs := y.Referrers(); frefs != nil {
+						for _, fr := range *frefs {
+							if st, ok := fr.(*ssa.Store); ok && st.Addr == ssa.Value(y) {
+								if cst, ok := st.Val.(*ssa.Const); ok && cst.Value != nil && cst.Value.String() != "0" {
+									set[fieldName(y.X.Type(), y.Field)] = true
+								}
+							}
+						}
+					}
+				}
+			}
+		}
+	case *ssa.Call:
+		if callee := x.Call.StaticCallee(); callee != nil && len(callee.Blocks) > 0 {
+			for _, r := range core.ReturnsOf(callee) {
+				if len(r.Results) > 0 {
+					codecFieldsSet(core.RetVal(r, 0), set, depth+1)
+				}
+			}
+		}
+	}
+}
